@@ -61,6 +61,16 @@ class Derived(Child):
 class Derived2(Derived):
     z: Optional[int] = field(default=None, metadata={"type": "Element"})
 ''',
+    "CodeInt": '''
+@dataclass
+class CodeInt:
+    code: Optional[int] = field(default=None, metadata={"type": "Element"})
+''',
+    "CodeStr": '''
+@dataclass
+class CodeStr:
+    code: Optional[str] = field(default=None, metadata={"type": "Element"})
+''',
     "NsChild": '''
 @dataclass
 class NsChild:
@@ -117,7 +127,7 @@ INNER_HELPERS = {
 ''',
 }
 HELPER_DEPS = {"Derived": ["Child"], "Wrap": ["Child"]}
-HELPER_ORDER = ["Color", "Num", "QEnum", "Child", "Derived", "NsChild", "Other", "Wrap", "AnyChild", "TextChild"]
+HELPER_ORDER = ["Color", "Num", "QEnum", "Child", "Derived", "NsChild", "Other", "Wrap", "AnyChild", "TextChild", "CodeInt", "CodeStr"]
 
 # ---------------------------------------------------------------------------------------
 # scalar type table: key -> (annotation, value expressions simplest first, format, helpers, tags)
@@ -424,7 +434,7 @@ def gen_field(ch: Chooser, i: int, frozen: bool, cats: list[str], scalar_keys: l
             tags.add("wrapper")
         return FieldSpec(name, L % cls, lf, meta, _listvals([vals[0], vals[1 if nillable else 2], vals[-1]], frozen), cat, helpers, tags | {"list"})
     if cat == "union":
-        variant = ch.pick(["int-str", "models", "list-int-str", "float-bool", "model-str", "models-nested"], f"{name}.variant")
+        variant = ch.pick(["int-str", "models", "list-int-str", "float-bool", "model-str", "models-nested", "models-same-names"], f"{name}.variant")
         meta = {"type": "'Element'"}
         tags = {"union"}
         if variant == "int-str":
@@ -436,6 +446,10 @@ def gen_field(ch: Chooser, i: int, frozen: bool, cats: list[str], scalar_keys: l
             return FieldSpec(name, "Optional[Union[bool, float]]", "None", meta, ["True", "None", "1.5", "False", "0.5"], cat, [], tags)
         if variant == "models":
             return FieldSpec(name, "Optional[Union[Child, Other]]", "None", meta, ["Child(v='a')", "None", "Other(x=1)", "Child(a=2)"], cat, ["Child", "Other"], tags | {"model", "clazz-union"})
+        if variant == "models-same-names":
+            # two models with the same child name and different primitive types: only the values tell them apart
+            return FieldSpec(name, "Optional[Union[CodeInt, CodeStr]]", "None", meta, ["CodeInt(code=7)", "None", "CodeStr(code='seven')", "CodeStr(code='x y')"], cat,
+                             ["CodeInt", "CodeStr"], tags | {"model", "clazz-union"})
         if variant == "models-nested":
             return FieldSpec(name, "Optional[Union[Wrap, Other]]", "None", meta, ["Wrap(c=Child(v='a', a=3))", "None", "Other(x=1)", "Wrap(c=Child(a=4), t='z')"], cat,
                              ["Child", "Wrap", "Other"], tags | {"model", "clazz-union"})
